@@ -53,6 +53,13 @@ def generate(tier, seed, shard, nshards):
                'unknown': rng.choice(['nope', '', 'R1 ', 'r1', '999', 'gnd?'])}
         if k % 4 == 0:
             yield {'kind': 'schematic', 'seed': rng.getrandbits(32)}
+        if k % 8 == 3:
+            # the same queries against a circuit WITHOUT any source (valid, every quantity is zero): unknown identifiers still are unknown
+            base = GC.random_circuit(rng, max_nodes=4, max_comps=6, n_reactive=(1, 2), sources=['dc_voltage_source'], lossy=0.0, passives=['resistor'],
+                                     id_pool=['R1', 'R2', 'R3', 'C1', 'C2', 'L1', 'L2', 'Vs', 'A', 'B', 'Z'], node_pool=['0', '1', '2', '3', 'a', 'b'], ground_prob=1.0)
+            base = {**base, 'components': [c for c in base['components'] if not c['ctor'].endswith('source')]}
+            if sum(1 for c in base['components'] if c['ctor'] != 'ground') >= 2:
+                yield {'kind': 'queries', 'circuit': base, 'unknown': rng.choice(['nope', '', 'R9', 'r1', '999', '7']), 'source_free': True}
 
 
 def must_raise(ctx, prefix, key, what, fn, *a, **k):
@@ -278,6 +285,8 @@ def judge_queries(case, ctx, prefix):
     circ = call(circdesc.to_lib, cd)
     if raised(circ):
         return
+    if case.get('source_free'):
+        ctx.count('query_bases_without_sources')
     sols = {}
     sols['network'] = call(lambda: nodal_analysis_bias_point_solver(transform_circuit(circ, 0.0)))
     sols['dc'] = call(S.DCSolution, circ)
